@@ -74,7 +74,7 @@ def _tok(isa):
     )
     cfi = st.fixed_dictionaries({"cfi": st.sampled_from(CFI_KINDS), "a": st.integers(0, 15), "b": st.integers(-64, 64),
                                  "sym": ref, "esc": st.lists(st.integers(0, 255), min_size=1, max_size=4)})
-    sec = st.fixed_dictionaries({"sec": st.sampled_from(["text", "data", "rodata", "text"])})
+    sec = st.fixed_dictionaries({"sec": st.sampled_from(["text", "data", "rodata", "text", "xtext"])})
     # bursts of CFI directives and labels at one position (several empty
     # blocks in a row that the assembler has to merge)
     burst = st.fixed_dictionaries({"seq": st.lists(st.one_of(cfi, cfi, lab), min_size=2, max_size=5)})
@@ -124,7 +124,7 @@ def _program(spec):
             if nm not in own:
                 own.append(nm)
     rodata = ".rodata" if fmt == "elf" else ".rdata"
-    secname = {"text": ".text", "data": ".data", "rodata": rodata}
+    secname = {"text": ".text", "data": ".data", "rodata": rodata, "xtext": ".xtext"}
     cur = ".text"
     sections = {".text": []}
     pos = {".text": 0}
@@ -223,6 +223,9 @@ def _program(spec):
             pos.setdefault(cur, 0)
             if t["sec"] == "rodata":
                 lines.append(f".section {rodata}" + (',"a"' if fmt == "elf" else ',"dr"'))
+            elif t["sec"] == "xtext":
+                # a second executable section
+                lines.append(".section .xtext" + (',"ax"' if fmt == "elf" else ',"xr"'))
             else:
                 lines.append("." + t["sec"])
             continue
@@ -366,14 +369,14 @@ def _leb_reachable(sections, spec):
             if it.kind == "insn":
                 code.append(True)
             else:
-                entry = k == 0 and sname == ".text" and not spec.get("unreach")
+                entry = k == 0 and sname in (".text", ".xtext") and not spec.get("unreach")
                 after = k > 0 and code[k - 1] and (real[k - 1].kind == "data" or real[k - 1].ikind in ("ord", "jcc", "call", "icall"))
                 has_cfi = any(x.kind == "cfi" and it.pos <= x.pos <= it.pos + it.size for x in items)
                 code.append(bool(entry or labelled(it) or after or has_cfi))
         for k, it in enumerate(real):
             if not (it.kind == "data" and it.dkind in ("uleb", "sleb")):
                 continue
-            if k == 0 and sname == ".text" and not spec.get("unreach"):
+            if k == 0 and sname in (".text", ".xtext") and not spec.get("unreach"):
                 return True
             if labelled(it):
                 return True
